@@ -245,6 +245,21 @@ def genTabStmt (i : Nat) : G (Stmt × String) := do
     for _ in [0:20] do
       if kfC16 s = "" then break
       s ← genC16Stmt true
+    if (i / 5) % 4 = 2 then
+      -- three or four nested property statements of one component, one of them private, at every
+      -- position (statement-level linkage of the shared ones after the private one is taken out)
+      let g : GS Stmt := do
+        let (cs, ps) ← liftG (pick (compPropPairs.filter (fun p => p.2.complex.isSome)))
+        let n := 3 + (i / 20) % 2
+        let k := (i / 40) % n
+        let mut parts : List Part := [.ann { sym := cs, sfx := some ['1'] } true (.leaf (← genText))]
+        for j in [0:n] do
+          let inner ← genFlatParts 2 0
+          parts := parts ++ [.nested { sym := ps, sfx := if j = k then some ['1'] else none } (.mk inner)]
+        let extra := if cs.name ≠ str "I" then Sym.I else Sym.A
+        pure (.mk (parts ++ [.ann { sym := extra } true (.leaf (← genText))]))
+      let (s2, _) ← g.run 0
+      if kfC16 s2 = "" then return (s2, "private-nested-between")
     if (i / 5) % 2 = 1 then
       -- … also inside a nested statement
       let mut inner ← genC16Stmt false
@@ -306,7 +321,17 @@ def genTabFamily (tagp : String) (tier : String) (seed : Nat) (both : Bool) : Ar
     -- C19 only: a nested statement whose components carry private properties (open finding:
     -- IG Core's flat text of the nested statement omits the private values)
     let (s, kind, kfExtra) :=
-      if both && i % 10 = 9 then
+      if both && i % 20 = 19 then
+        -- a single-valued component with a matching private property (and, every other time, a
+        -- shared property as well) inside a nested statement, over every component/property pair
+        let (cs, ps) := compPropPairs.getD ((i / 20) % compPropPairs.length) default
+        let w := fun (t : String) => Expr.leaf (t ++ toString i).toList
+        let inner : Stmt := .mk ([.ann { sym := cs, sfx := some ['1'] } true (w "officer"),
+            .ann { sym := ps, sfx := some ['1'] } true (w "certified"), .ann { sym := Sym.I } true (w "reports")]
+          ++ (if (i / 20) % 2 = 1 then [Part.ann { sym := ps } true (w "documented")] else []))
+        ((Stmt.mk [.ann { sym := Sym.A } true (.leaf (str "regulator")), .ann { sym := Sym.I } true (.leaf (str "acts")), .nested { sym := Sym.Cac } inner]),
+         "private-single-inside-nested", "C19-core-text-omits-private-properties-of-nested-statement")
+      else if both && i % 10 = 9 then
         let (inner, _) := genC16Stmt false ⟨UInt64.ofNat (seed * 31 + i)⟩
         let hasPriv := !(privTextsOf (denoteLinked inner)).isEmpty
         ((Stmt.mk [.ann { sym := Sym.A } true (.leaf (str "regulator")), .ann { sym := Sym.I } true (.leaf (str "acts")), .nested { sym := Sym.Cac } inner]),
